@@ -91,7 +91,10 @@ func (a *Analysis) ruleW() {
 	// function calls in turn are steps of the update, not drivers)
 	isUpdateCall := func(c ssa.CallInstruction) bool {
 		callee := c.Common().StaticCallee()
-		if callee == nil || callee.Pkg != a.P.Gen || len(c.Common().Args) != 2 || callee == c.Parent() {
+		if callee == nil || callee.Pkg != a.P.Gen || callee == c.Parent() {
+			return false
+		}
+		if sa, ok := updateArgs(c); !ok || len(sa) != 2 {
 			return false
 		}
 		for f := range a.reachableFrom(callee) {
@@ -124,7 +127,8 @@ func (a *Analysis) ruleW() {
 	}
 	for _, c := range driverCalls {
 		callee := c.Common().StaticCallee()
-		if lk, ok := c.Common().Args[1].(*ssa.Lookup); ok && !lk.CommaOk && lk.Index == c.Common().Args[0] && loadedGlobal(lk.X) == tableVar {
+		sargs, _ := updateArgs(c)
+		if lk, ok := sargs[1].(*ssa.Lookup); ok && !lk.CommaOk && lk.Index == sargs[0] && loadedGlobal(lk.X) == tableVar {
 			// update(stem, table[stem]): the pair is an entry of the table whatever the stem is
 			upd = callee
 			okMain = true
@@ -132,8 +136,8 @@ func (a *Analysis) ruleW() {
 			a.checkMainStops(c)
 			continue
 		}
-		k, okk := c.Common().Args[0].(*ssa.Extract)
-		v, okv := c.Common().Args[1].(*ssa.Extract)
+		k, okk := sargs[0].(*ssa.Extract)
+		v, okv := sargs[1].(*ssa.Extract)
 		if !okk || !okv {
 			r.Bad("W1", "main/arguments", a.P.InstrPos(c), "", "the update function is not called with the table's key and value")
 			continue
@@ -231,6 +235,13 @@ func (a *Analysis) checkMainStops(c ssa.CallInstruction) {
 					if _, ok := in.(*ssa.Panic); ok {
 						found = true
 					}
+					// the failure is put on a list (`errs = append(errs, fmt.Errorf("…: %w", err))`),
+					// the run goes on, and after it errors.Join(errs...) is tested and is fatal
+					if ap, ok := in.(*ssa.Call); ok && calleeName(ap) == "append" && len(ap.Call.Args) == 2 && a.appendsFailure(ap, ev) {
+						if jc := joinOfCollected(ap); jc != nil && stops(jc, depth+1) {
+							found = true
+						}
+					}
 					if ret, ok := in.(*ssa.Return); ok && len(ret.Results) > 0 {
 						v := returnedValue(ret, len(ret.Results)-1)
 						isErr := v == ev
@@ -256,6 +267,75 @@ func (a *Analysis) checkMainStops(c ssa.CallInstruction) {
 		return found
 	}
 	r.Check(stops(c, 0), "W2", "main/stop-on-error", a.P.InstrPos(c), "", "the run stops when an update fails", "the run carries on after a failed update: a truncated or missing list file could be committed")
+}
+
+// appendsFailure: the variadic part of append call ap is exactly one element, and it is the
+// error ev itself or a freshly built error (fmt.Errorf / errors.New): never nil.
+func (a *Analysis) appendsFailure(ap *ssa.Call, ev ssa.Value) bool {
+	sl, ok := ap.Call.Args[1].(*ssa.Slice)
+	if !ok {
+		return false
+	}
+	arr, ok := sl.X.(*ssa.Alloc)
+	if !ok {
+		return false
+	}
+	n := 0
+	good := true
+	for _, ref := range *arr.Referrers() {
+		ia, ok := ref.(*ssa.IndexAddr)
+		if !ok {
+			continue
+		}
+		for _, r2 := range *ia.Referrers() {
+			st, ok := r2.(*ssa.Store)
+			if !ok {
+				continue
+			}
+			n++
+			v := st.Val
+			if mi, ok := v.(*ssa.MakeInterface); ok {
+				v = mi.X
+			}
+			if v == ev {
+				continue
+			}
+			if c, ok := v.(*ssa.Call); ok && (calleeName(c) == "fmt.Errorf" || calleeName(c) == "errors.New") {
+				continue
+			}
+			good = false
+		}
+	}
+	return good && n == 1
+}
+
+// joinOfCollected: the slice built by append call ap flows (through φ-nodes and further
+// appends only) into the argument of one errors.Join call of the same function.
+func joinOfCollected(ap *ssa.Call) *ssa.Call {
+	seen := map[ssa.Value]bool{}
+	var found *ssa.Call
+	var walk func(v ssa.Value)
+	walk = func(v ssa.Value) {
+		if seen[v] || v.Referrers() == nil {
+			return
+		}
+		seen[v] = true
+		for _, ref := range *v.Referrers() {
+			switch x := ref.(type) {
+			case *ssa.Phi:
+				walk(x)
+			case *ssa.Call:
+				if calleeName(x) == "errors.Join" && len(x.Call.Args) == 1 && x.Call.Args[0] == v {
+					found = x
+				}
+				if calleeName(x) == "append" && len(x.Call.Args) == 2 && x.Call.Args[0] == v {
+					walk(x)
+				}
+			}
+		}
+	}
+	walk(ap)
+	return found
 }
 
 // reachableFrom: fn and the module functions it (transitively) calls statically.
@@ -525,15 +605,46 @@ func renderPath(v AV) (string, bool) {
 // (module helpers are entered, so splitting it into fetch / parse / render does not matter):
 // what is rendered is strings.Split(string(<body of GET <upstream>/<stem>.txt>), "\n") and the
 // variable name, into <outdir>/<stem>.go opened truncating; no failing step is passed over.
+// isContextType: context.Context.
+func isContextType(t types.Type) bool {
+	n, ok := t.(*types.Named)
+	return ok && n.Obj().Pkg() != nil && n.Obj().Pkg().Path() == "context" && n.Obj().Name() == "Context"
+}
+
+// updateArgs returns the arguments of a call of an update function that are not a
+// context.Context (those carry nothing the generated file depends on); false if the callee is
+// not resolved.
+func updateArgs(c ssa.CallInstruction) ([]ssa.Value, bool) {
+	callee := c.Common().StaticCallee()
+	if callee == nil {
+		return nil, false
+	}
+	var out []ssa.Value
+	for _, arg := range c.Common().Args {
+		if isContextType(arg.Type()) {
+			continue
+		}
+		out = append(out, arg)
+	}
+	return out, true
+}
+
 func (a *Analysis) ruleW2(upd *ssa.Function) {
 	r := a.R
 	fk := fnKey(upd)
 	pos := a.P.Pos(upd.Pos())
-	if len(upd.Params) != 2 {
+	var sp []*ssa.Parameter
+	for _, p := range upd.Params {
+		if isContextType(p.Type()) {
+			continue // a context.Context handed down to the request: no influence on what is written
+		}
+		sp = append(sp, p)
+	}
+	if len(sp) != 2 {
 		r.Unk("W2", fk+"/params", pos, "", "update function does not take (stem, variable)")
 		return
 	}
-	pathP, varP := upd.Params[0], upd.Params[1]
+	pathP, varP := sp[0], sp[1]
 	e := a.eval(upd, &Ctx{Name: "generator"})
 	for _, ev := range e.Events {
 		if ev.Status == Undecided && (ev.Rule == "P5" || ev.Rule == "U" || ev.Rule == "X") {
@@ -600,6 +711,7 @@ func (a *Analysis) ruleW2(upd *ssa.Function) {
 	}
 	// ---- the words: Split(string(download(url)), "\n"), nothing in between
 	var url AV
+	var scanErrSite ssa.Instruction // scanner form: the Err() call that must have returned nil
 	switch {
 	case words == nil:
 		desc := "no field holds the result of strings.Split"
@@ -609,6 +721,30 @@ func (a *Analysis) ruleW2(upd *ssa.Function) {
 			}
 		}
 		r.Bad("W2", fk+"/pipeline", ep, "", "the template's word slice is not strings.Split(string(download), \"\\n\"): %s", desc)
+	case words.Fn == "bufio.ScanLines":
+		// the lines of the download as a bufio.Scanner yields them: the pieces between line
+		// feeds (a trailing carriage return dropped — no covered input has one), without the
+		// empty piece after a final line feed, which the template skips anyway
+		in, _ := words.In.(StrV)
+		if in.Kind != skSrc || in.S != "download" {
+			r.Bad("W2", fk+"/pipeline", a.P.InstrPos(words.Site), "", "the scanner reads %v, not the downloaded bytes: something transforms the words (or they do not come from the download)", words.In)
+			break
+		}
+		url = in.X
+		r.OK("W2", fk+"/pipeline", ep, "", "field %s = the lines of the download read with a bufio.Scanner (default split), nothing in between", wordsField)
+		for _, c := range e.Calls {
+			if c.Callee != "(*bufio.Scanner).Err" || len(c.Args) == 0 {
+				continue
+			}
+			if rv, ok := c.Args[0].(ResV); ok && rv.O == words.Scanner {
+				scanErrSite = c.Instr
+			}
+		}
+		if scanErrSite == nil {
+			r.Bad("W2", fk+"/scanner-error", a.P.InstrPos(words.Site), "", "the scanner's Err() is never examined: a list cut short by a read error or by a line longer than the buffer would be written as if it were complete")
+		} else {
+			r.OK("W2", fk+"/scanner-error", a.P.InstrPos(scanErrSite), "", "the scanner's Err() is examined (it must be nil wherever the function reports success)")
+		}
 	case words.Fn != "strings.Split":
 		r.Bad("W2", fk+"/pipeline", a.P.InstrPos(words.Site), "", "the downloaded text is cut up by %s, not by strings.Split on \"\\n\"", words.Fn)
 	default:
@@ -639,6 +775,7 @@ func (a *Analysis) ruleW2(upd *ssa.Function) {
 	}
 	// ---- output file (possibly behind a bufio.Writer, which must then be flushed)
 	var writeFileSite ssa.Instruction // render-into-memory form: the os.WriteFile call
+	var renameSite ssa.Instruction    // temporary-file form: the os.Rename call
 	w := execRec.Args[1]
 	var bw *ResV
 	if rv, ok := w.(ResV); ok && rv.Kind == "bufio.Writer" {
@@ -646,10 +783,42 @@ func (a *Analysis) ruleW2(upd *ssa.Function) {
 		bw = &b
 		w = rv.A
 	}
-	file, isFile := w.(ResV)
-	okOut := false
-	if isFile && file.Kind == "os.File" {
+	// checkFile: the output file is created or truncated, and named after the download
+	checkFile := func(file ResV) {
+		okOut := false
 		fp := a.P.InstrPos(file.Site)
+		if file.Temp {
+			// a new temporary file: it must be renamed onto the output path, once, and the
+			// function may report success only after that rename succeeded
+			var rn []CallRec
+			for _, c := range e.Calls {
+				if c.Callee == "os.Rename" {
+					rn = append(rn, c)
+				}
+			}
+			if len(rn) != 1 {
+				r.Add("W2", fk+"/output", fp, "", Undecided, "the template is rendered into a temporary file; expected exactly one os.Rename of it onto the output, found %d", len(rn))
+				return
+			}
+			rp := a.P.InstrPos(rn[0].Instr)
+			if tn, ok := rn[0].Args[0].(TempNameV); !ok || tn.Site != file.Site {
+				r.Bad("W2", fk+"/output", rp, "", "os.Rename moves %v, not the temporary file the template was rendered into", rn[0].Args[0])
+				return
+			}
+			renameSite = rn[0].Instr
+			r.OK("W2", fk+"/truncate", rp, "", "a new temporary file replaces the output by os.Rename: nothing of the old file survives")
+			s, ok := renderPath(rn[0].Args[1])
+			want := a.genOutDir() + "/{" + pathP.Name() + "}.go"
+			if !ok || s != want {
+				if !ok {
+					s = fmt.Sprint(rn[0].Args[1])
+				}
+				r.Bad("W2", fk+"/output-name", rp, "", "output path is %q; expected %q (same stem as the download)", s, want)
+			} else {
+				r.OK("W2", fk+"/output-name", rp, "", "renamed to %s", s)
+			}
+			return
+		}
 		if file.Flags == nil {
 			okOut = true
 			r.OK("W2", fk+"/truncate", fp, "", "os.Create truncates the output")
@@ -685,26 +854,43 @@ func (a *Analysis) ruleW2(upd *ssa.Function) {
 				r.OK("W2", fk+"/output-name", fp, "", "writes %s", s)
 			}
 		}
+	}
+	file, isFile := w.(ResV)
+	if isFile && file.Kind == "os.File" {
+		checkFile(file)
 	} else if buf, isBuf := w.(ResV); isBuf && buf.Kind == "bytes.Buffer" && bw == nil {
-		// rendered into memory first: exactly one os.WriteFile must write that rendering (and
-		// nothing else) to the output path; WriteFile creates or truncates
+		// rendered into memory first: exactly one call must write that rendering (and nothing
+		// else) to the output: os.WriteFile(path, rendering, perm), which creates or truncates,
+		// or one Write of it to a file opened like the direct form's
 		var wf []CallRec
 		for _, c := range e.Calls {
-			if c.Callee == "os.WriteFile" || c.Callee == "io/ioutil.WriteFile" {
+			if c.Callee == "os.WriteFile" || c.Callee == "io/ioutil.WriteFile" || c.Callee == "(*os.File).Write" {
 				wf = append(wf, c)
 			}
 		}
 		switch {
 		case len(wf) != 1:
-			r.Add("W2", fk+"/output", ep, "", Undecided, "the template is rendered into a bytes.Buffer; expected exactly one os.WriteFile of it, found %d", len(wf))
+			r.Add("W2", fk+"/output", ep, "", Undecided, "the template is rendered into a bytes.Buffer; expected exactly one os.WriteFile (or File.Write) of it, found %d", len(wf))
 		default:
 			fp := a.P.InstrPos(wf[0].Instr)
 			rv, isR := wf[0].Args[1].(RenderedV)
 			if !isR || rv.Buf != buf.O || rv.Exec != execRec.Instr {
-				r.Bad("W2", fk+"/output", fp, "", "os.WriteFile writes %v, which is not the content of the buffer right after the one Execute into it", wf[0].Args[1])
+				r.Bad("W2", fk+"/output", fp, "", "%s writes %v, which is not the content of the buffer right after the one Execute into it", wf[0].Callee, wf[0].Args[1])
 				break
 			}
+			if rv.Formatted {
+				r.OK("W2", fk+"/formatted", fp, "", "the rendering goes through go/format.Source before it is written (white space only: trusted)")
+			}
 			writeFileSite = wf[0].Instr
+			if wf[0].Callee == "(*os.File).Write" {
+				f, ok := wf[0].Args[0].(ResV)
+				if !ok || f.Kind != "os.File" {
+					r.Add("W2", fk+"/output", fp, "", Undecided, "the rendering is written to %v, which is not a file opened by os.OpenFile/os.Create", wf[0].Args[0])
+					break
+				}
+				checkFile(f)
+				break
+			}
 			r.OK("W2", fk+"/truncate", fp, "", "os.WriteFile creates or truncates the output")
 			s, ok := renderPath(wf[0].Args[0])
 			want := a.genOutDir() + "/{" + pathP.Name() + "}.go"
@@ -724,6 +910,13 @@ func (a *Analysis) ruleW2(upd *ssa.Function) {
 	for _, c := range e.Calls {
 		if isExec(c.Callee) || strings.HasSuffix(c.Callee, ".Close") || c.Callee == "invoke:Close" || c.Callee == "bufio.NewWriter" || c.Callee == "bufio.NewWriterSize" || c.Callee == "(*bufio.Writer).Flush" {
 			continue
+		}
+		if c.Instr == writeFileSite {
+			continue // the one write of the rendering
+		}
+		switch c.Callee {
+		case "(*os.File).Name", "(*os.File).Chmod", "(*os.File).Sync", "(*os.File).Stat":
+			continue // do not change what the file holds
 		}
 		touches := false
 		for _, arg := range append(append([]AV{}, c.Args...), c.Recv) {
@@ -783,6 +976,8 @@ func (a *Analysis) ruleW2(upd *ssa.Function) {
 		}
 		rendered := false
 		written := writeFileSite == nil
+		renamed := renameSite == nil
+		scanned := scanErrSite == nil
 		for _, site := range sites {
 			c, ok := state[e.errObj[site]].(CellC)
 			if !ok {
@@ -796,6 +991,12 @@ func (a *Analysis) ruleW2(upd *ssa.Function) {
 			if site == writeFileSite && succeeded {
 				written = true
 			}
+			if site == renameSite && succeeded {
+				renamed = true
+			}
+			if site == scanErrSite && succeeded {
+				scanned = true
+			}
 			if succeeded {
 				continue
 			}
@@ -805,6 +1006,16 @@ func (a *Analysis) ruleW2(upd *ssa.Function) {
 		if !rendered {
 			okErr = false
 			r.Bad("W2", fk+"/errors", a.P.InstrPos(x.Ret), "", "%s can return nil here without the template having been rendered successfully: a list file would be missing or incomplete without an error", fk)
+			continue
+		}
+		if !scanned {
+			okErr = false
+			r.Bad("W2", fk+"/errors", a.P.InstrPos(x.Ret), "", "%s can return nil here without the scanner's Err() having been found nil", fk)
+			continue
+		}
+		if !renamed {
+			okErr = false
+			r.Bad("W2", fk+"/errors", a.P.InstrPos(x.Ret), "", "%s can return nil here without the temporary file having been renamed onto the output", fk)
 			continue
 		}
 		if !written {
@@ -870,11 +1081,14 @@ func (a *Analysis) templateText(exec *ssa.Call) (string, string, bool) {
 		case strings.HasSuffix(n, "template.Must"):
 			root = c.Call.Args[0]
 		case strings.HasSuffix(n, "Template).Parse"):
+			pkg := "text/template"
+			if strings.Contains(n, "html/template") {
+				pkg = "html/template"
+			}
 			if s, ok := strConst(c.Call.Args[1]); ok {
-				pkg := "text/template"
-				if strings.Contains(n, "html/template") {
-					pkg = "html/template"
-				}
+				return s, pkg, true
+			}
+			if s, ok := a.embeddedText(c.Call.Args[1]); ok {
 				return s, pkg, true
 			}
 			return "", "", false
@@ -883,6 +1097,64 @@ func (a *Analysis) templateText(exec *ssa.Call) (string, string, bool) {
 		}
 	}
 	return "", "", false
+}
+
+// embeddedText: v is the value of a string variable of the generator that carries a
+// `//go:embed <file>` directive naming one file (no pattern), is never assigned and whose
+// address is not taken: its content is that file, read from the package directory.
+func (a *Analysis) embeddedText(v ssa.Value) (string, bool) {
+	g := loadedGlobal(v)
+	if g == nil || a.P.GenP == nil || g.Pkg != a.P.Gen {
+		return "", false
+	}
+	if bt, ok := g.Type().Underlying().(*types.Pointer).Elem().Underlying().(*types.Basic); !ok || bt.Kind() != types.String {
+		return "", false
+	}
+	for _, w := range a.Ef.Writes[g] {
+		if !w.Test {
+			return "", false
+		}
+	}
+	if len(a.Ef.AddrUse[g]) > 0 {
+		return "", false
+	}
+	for _, f := range a.P.GenP.Syntax {
+		for _, d := range f.Decls {
+			gd, ok := d.(*ast.GenDecl)
+			if !ok || gd.Tok != token.VAR {
+				continue
+			}
+			for _, sp := range gd.Specs {
+				vs, ok := sp.(*ast.ValueSpec)
+				if !ok || len(vs.Names) != 1 || vs.Names[0].Name != g.Name() || len(vs.Values) != 0 {
+					continue
+				}
+				doc := vs.Doc
+				if doc == nil {
+					doc = gd.Doc
+				}
+				if doc == nil {
+					return "", false
+				}
+				var files []string
+				for _, c := range doc.List {
+					if strings.HasPrefix(c.Text, "//go:embed ") {
+						files = append(files, strings.Fields(strings.TrimPrefix(c.Text, "//go:embed "))...)
+					}
+				}
+				if len(files) != 1 || strings.ContainsAny(files[0], "*?[\\\"`") || strings.Contains(files[0], "..") {
+					return "", false
+				}
+				dir := filepath.Dir(a.P.Fset.Position(f.Pos()).Filename)
+				data, err := os.ReadFile(filepath.Join(dir, files[0]))
+				if err != nil {
+					return "", false
+				}
+				return string(data), true
+			}
+		}
+	}
+	return "", false
 }
 
 func stripComments(s string) string {
